@@ -285,7 +285,7 @@ class NoiseObservedOnly(_UpdateRule):
 UNITS = [WSum(), WeightedValue(), ApplyOperation(), GetDim(), LinkedMaskIndependence(), NoiseObservedOnly()]
 CALLEES = []
 ASSUMPTIONS = ["sums of IEEE values are not modelled: the IEEE configuration covers the element-wise part (weight * filled(0))",
-               "Dataset construction (padding, NaN mask) and personalisation end-to-end are covered by the stand-in only"]
+               "personalisation end-to-end is covered by the stand-in only; NaN-ness of an observation = the uninterpreted predicate isnan(value)"]
 NOT_DECIDED = ["independence from the *amount* of padding for sums (needs splitting a sum at the padding boundary; stand-in)"]
 
 
@@ -326,3 +326,8 @@ class WSumMaskedTermsIEEE(Spec):
 
 
 UNITS.append(WSumMaskedTermsIEEE())
+
+# the tensors every masked computation starts from: mask = 1 exactly on observed entries, values = 0 under the mask
+# (same units as C14: Dataset._construct_values / _construct_timepoints, loop invariants for any cohort)
+from contracts.c14 import ConstructValues, ConstructTimepoints  # noqa: E402
+UNITS += [ConstructValues(), ConstructTimepoints()]
